@@ -10,8 +10,11 @@ TRUSTED = [
     "harness/gen_more.py: \\w table of Python's re (code points < 0x250), str.isspace",
 ]
 ASSUMPTIONS = [
-    "patterns are sequences of literals and capturing fields, one character class with one quantifier each; regular expressions with nested groups, "
-    "optional groups, look-around or back-references, cfparse cardinality fields and cucumber expressions are covered by the oracle only",
+    "parse / cfparse patterns are sequences of literals and capturing fields (one character class with one quantifier each); cfparse cardinality "
+    "fields and cucumber expressions are covered by the oracle only",
+    "regular expressions (re, re0): alternation, greedy/lazy * + ?, named/unnamed/nested/optional groups, character classes are modelled "
+    "(Regex.v, Python's backtracking priority); quantified bodies that can match the empty string, quantifiers nested in * or + bodies, "
+    "look-around and back-references are not generated",
     "parse's d type is modelled for its decimal alternative (texts such as 0x1F / 0b1 / 0o7 are not generated); step texts are ASCII plus a few "
     "non-ASCII letters and contain no line breaks",
     "top-level alternatives of `re` patterns contain no capturing groups (non-participating groups are reported by RegexMatcher as None arguments)",
@@ -25,7 +28,9 @@ RULE = ("seeded random registration histories (1-8 registrations over 4 step typ
 LEVEL_TEXT = ("Theorems over StepMatch.v: the flat matcher is sound - a match splits the complete step text into the pattern's literals and field pieces, "
               "each piece in its field's language, spans are the running offsets and delimit `original` (case-sensitive, no prefix/suffix left over when "
               "anchored); Match.run's positional/keyword split; find_match returns the first matching definition of type-list ++ generic-list in "
-              "registration order and only definitions registered for that type or generically; for all registration histories: lists only grow at the "
+              "registration order and only definitions registered for that type or generically; the regular-expression matcher (alternation, quantifiers, "
+              "groups) is sound: an end-anchored match implies the complete text is in the language, reported group spans delimit their text; "
+              "for all registration histories: lists only grow at the "
               "end, an ambiguous or repeated registration leaves the registry unchanged, every definition carries the matcher kind in force when it "
               "was registered.  Model compared with StepRegistry + the real matchers.")
 LEVEL_NOTE = "Trusted: Coq kernel, generated tables, harness translation of pattern syntax."
@@ -539,6 +544,186 @@ Definition rout_eqb (a b : rout) : bool :=
 """
 
 
+# ---------------------------------------------------------------- regular expressions beyond flat patterns (re / re0 matchers)
+RX_CHARS = list("abx1 _-")
+RX_CLASSES = {"d": (r"\d", "CDigit", "0123456789"), "w": (r"\w", "CWord", "abz_09"), "any": (".", "CAny", "ab 1-_x"),
+              "S": (r"\S", "CNonSpace", "ab1-_x"), "l": ("[A-Za-z]", "CAlpha", "abxZ")}
+
+
+def gen_rx(rnd, depth, names, nullable_ok=True, in_quant=False):
+    """AST: ["eps"] | ["chr", c] | ["cls", k] | ["seq", a, b] | ["alt", a, b] | ["star"|"plus"|"opt", greedy, a] | ["grp", name|None, a]
+    Quantifiers are not nested inside * or + bodies (catastrophic backtracking is the engine's business, not the property's)."""
+    r = rnd.random()
+    if depth <= 0 or r < 0.25:
+        return ["chr", rnd.choice(RX_CHARS)] if rnd.random() < 0.6 else ["cls", rnd.choice(list(RX_CLASSES))]
+    if r < 0.45:
+        return ["seq", gen_rx(rnd, depth - 1, names, nullable_ok, in_quant), gen_rx(rnd, depth - 1, names, True, in_quant)]
+    if r < 0.6:
+        return ["alt", gen_rx(rnd, depth - 1, names, nullable_ok, in_quant), gen_rx(rnd, depth - 1, names, nullable_ok, in_quant)]
+    if r < 0.8 and not in_quant:
+        kind = rnd.choice(["star", "plus", "opt"]) if nullable_ok else "plus"
+        return [kind, rnd.random() < 0.6, gen_rx(rnd, depth - 1, names, False, kind != "opt")]
+    if r < 0.8:
+        return ["chr", rnd.choice(RX_CHARS)]
+    name = None
+    if rnd.random() < 0.5:
+        name = "g%d" % (len(names) + 1)
+        names.append(name)
+    return ["grp", name, gen_rx(rnd, depth - 1, names, nullable_ok, in_quant)]
+
+
+def rx_atomic(a):
+    return a[0] in ("chr", "cls", "grp")
+
+
+def render_rx(a, top=True):
+    k = a[0]
+    if k == "eps":
+        return ""
+    if k == "chr":
+        return re.escape(a[1])
+    if k == "cls":
+        return RX_CLASSES[a[1]][0]
+    if k == "seq":
+        return "".join(("(?:%s)" % render_rx(x, False)) if x[0] == "alt" else render_rx(x, False) for x in a[1:])
+    if k == "alt":
+        return "%s|%s" % (render_rx(a[1], False), render_rx(a[2], False))
+    if k in ("star", "plus", "opt"):
+        body = render_rx(a[2], False)
+        if not rx_atomic(a[2]):
+            body = "(?:%s)" % body
+        return body + {"star": "*", "plus": "+", "opt": "?"}[k] + ("" if a[1] else "?")
+    if k == "grp":
+        return ("(?P<%s>%s)" % (a[1], render_rx(a[2], False))) if a[1] else "(%s)" % render_rx(a[2], False)
+    raise ValueError(a)
+
+
+def sample_rx(rnd, a):
+    k = a[0]
+    if k == "eps":
+        return ""
+    if k == "chr":
+        return a[1]
+    if k == "cls":
+        return rnd.choice(RX_CLASSES[a[1]][2])
+    if k == "seq":
+        return sample_rx(rnd, a[1]) + sample_rx(rnd, a[2])
+    if k == "alt":
+        return sample_rx(rnd, rnd.choice(a[1:]))
+    if k == "star":
+        return "".join(sample_rx(rnd, a[2]) for _ in range(rnd.randint(0, 3)))
+    if k == "plus":
+        return "".join(sample_rx(rnd, a[2]) for _ in range(rnd.randint(1, 3)))
+    if k == "opt":
+        return sample_rx(rnd, a[2]) if rnd.random() < 0.5 else ""
+    return sample_rx(rnd, a[2])
+
+
+def c_rx(a):
+    k = a[0]
+    if k == "eps":
+        return "REps"
+    if k == "chr":
+        return "(RChar %d%%N)" % ord(a[1])
+    if k == "cls":
+        return "(RClass %s)" % RX_CLASSES[a[1]][1]
+    if k == "seq":
+        return "(RSeq %s %s)" % (c_rx(a[1]), c_rx(a[2]))
+    if k == "alt":
+        return "(RAlt %s %s)" % (c_rx(a[1]), c_rx(a[2]))
+    if k in ("star", "plus", "opt"):
+        return "(%s %s %s)" % ({"star": "RStar", "plus": "RPlus", "opt": "ROpt"}[k], cbool(a[1]), c_rx(a[2]))
+    return "(RGroup %s %s)" % ("None" if a[1] is None else "(Some %s)" % cstr(a[1]), c_rx(a[2]))
+
+
+def impl_regex(case):
+    from behave.matchers import SimplifiedRegexMatcher, CucumberRegexMatcher
+
+    def func(context, *a, **kw):
+        pass
+    pattern = render_rx(case["rx"])
+    try:
+        if case["kind"] == "re":
+            m = SimplifiedRegexMatcher(func, pattern)
+        else:
+            body = "(?:%s)" % pattern if case["rx"][0] == "alt" else pattern       # the author of a re0 pattern writes the anchors
+            m = CucumberRegexMatcher(func, "^" + body + ("$" if case["end"] else ""))
+        args = m.check_match(case["text"])
+    except Exception as e:      # noqa
+        return {"EXC": "%s: %s" % (type(e).__name__, e), "pattern": pattern}
+    if args is None:
+        return {"match": None, "pattern": pattern}
+    return {"match": [[a.start, a.end, a.original, a.name] for a in args], "pattern": pattern}
+
+
+def oracle_regex(case, obs):
+    if "EXC" in obs:
+        return [("pattern %r raised %s" % (obs["pattern"], obs["EXC"]), "regex-exception")]
+    pat = "(?:%s)" % obs["pattern"] if case["kind"] == "re" else obs["pattern"].lstrip("^").rstrip("$") if False else None
+    out = []
+    text = case["text"]
+    if case["kind"] == "re":
+        full = re.fullmatch("(?:%s)" % render_rx(case["rx"]), text)
+        if obs["match"] is not None and not full:
+            out.append(("re pattern %r binds the step %r although it does not match the complete text" % (render_rx(case["rx"]), text),
+                        "bound-without-full-match"))
+        if obs["match"] is None and full:
+            out.append(("re pattern %r does not bind %r although it matches the complete text" % (render_rx(case["rx"]), text),
+                        "matching-definition-not-found"))
+    for a in obs["match"] or []:
+        if a[0] is not None and a[0] >= 0 and text[a[0]:a[1]] != a[2]:
+            out.append(("argument %r: text[%d:%d] is %r, original %r" % (a[3], a[0], a[1], text[a[0]:a[1]], a[2]), "span-does-not-delimit-original"))
+    starts = [a[0] for a in obs["match"] or [] if a[0] is not None and a[0] >= 0]
+    return out
+
+
+def enc_regex(case, obs):
+    if "EXC" in obs:
+        return None
+    cin = "(%s, %s, %s)" % (cbool(case["kind"] == "re" or case["end"]), c_rx(case["rx"]), cstr(case["text"]))
+    if obs["match"] is None:
+        return cin, "(@None (list rarg))"
+    items = []
+    for a in obs["match"]:
+        name = "None" if a[3] is None else "(Some %s)" % cstr(a[3])
+        if a[0] is None or a[0] < 0:
+            items.append("(mkRArg None None %s)" % name)
+        else:
+            items.append("(mkRArg (Some (%s, %s)) (Some %s) %s)" % (cnat(a[0]), cnat(a[1]), cstr(a[2]), name))
+    return cin, "(Some %s)" % clist(items, "rarg")
+
+
+RX_HEADER = "From BV Require Import Base UStr StepMatch Regex.\n" + """
+Definition span_eqb (a b : nat * nat) : bool := Nat.eqb (fst a) (fst b) && Nat.eqb (snd a) (snd b).
+Definition rarg_eqb (a b : rarg) : bool :=
+  option_eqb span_eqb (ra_span a) (ra_span b) && option_eqb ustr_eqb (ra_text a) (ra_text b) && option_eqb ustr_eqb (ra_name a) (ra_name b).
+"""
+
+
+def gen_regex_cases(rnd, n):
+    cases = []
+    for _ in range(n):
+        names = []
+        rx = gen_rx(rnd, rnd.randint(1, 4), names)
+        kind = rnd.choice(["re", "re", "re0"])
+        end = rnd.random() < 0.6
+        texts = set()
+        for _ in range(4):
+            t = sample_rx(rnd, rx)
+            texts.add(t)
+            if t:
+                i = rnd.randrange(len(t))
+                texts.add(t[:i] + t[i + 1:])
+                texts.add(t[:i] + rnd.choice("abx1 _-Q") + t[i:])
+                texts.add(t + rnd.choice(["", " more", "x"]))
+                texts.add(t.swapcase())
+        texts.add("".join(rnd.choice("abx1 _-") for _ in range(rnd.randint(0, 5))))
+        for t in sorted(texts):
+            if len(t) <= 16:
+                cases.append({"rx": rx, "kind": kind, "end": end, "text": t})
+    return cases
+
+
 # ---------------------------------------------------------------- generators
 def gen_case(rnd, factory_rate=0.04):
     npat = rnd.randint(1, 5)
@@ -641,4 +826,12 @@ def suites(tier, seed):
             "bound": "%d registration histories with look-ups" % len(cases),
             "coq": {"header": HEADER + EQB, "in_ty": "list rop", "out_ty": "list rout", "fn": "fun ops => snd (run_ops ops)",
                     "eqb": "list_eqb rout_eqb", "enc": enc, "shard": 60}}
-    return [main]
+    rcases = gen_regex_cases(rnd, 1500 if thorough else 300)
+    regexes = {"name": "regexes", "cases": rcases, "impl": impl_regex, "oracle": oracle_regex,
+               "nontrivial": lambda c, o: bool(o.get("match")),
+               "bound": "%d (pattern, text) pairs: random regular expressions of depth <= 4 (alternation, greedy/lazy * + ?, named/unnamed/nested/"
+                        "optional groups, classes) x sampled members of their language and one-character mutations, re and re0" % len(rcases),
+               "coq": {"header": RX_HEADER, "in_ty": "bool * rx * ustr", "out_ty": "option (list rarg)",
+                       "fn": "fun c => rx_check_match (fst (fst c)) (snd (fst c)) (snd c)",
+                       "eqb": "option_eqb (list_eqb rarg_eqb)", "enc": enc_regex, "shard": 300}}
+    return [main, regexes]
